@@ -5,7 +5,6 @@ use itertools::Itertools;
 use std::collections::HashMap;
 use std::fmt::Debug;
 use std::marker::PhantomData;
-use std::mem::take;
 use ultraviolet::f32x8;
 
 pub mod builder;
@@ -531,6 +530,20 @@ where
         let last_observations = self.observations.clone();
         let last_metric = self.metric.clone();
 
+        // The resulting history is computed once: the own history followed (once) by the source's
+        // when requested, the own history otherwise. It replaces the track's history only after
+        // every class has been merged and optimized successfully.
+        let merge_history = if merge_history {
+            self.merge_history
+                .iter()
+                .chain(other.merge_history.iter())
+                .cloned()
+                .collect::<Vec<_>>()
+        } else {
+            self.merge_history.clone()
+        };
+        let mut merged = false;
+
         for cls in classes {
             let dest = self.observations.get_mut(cls);
             let src = other.observations.get(cls);
@@ -552,16 +565,6 @@ where
 
                 _ => None,
             };
-            let merge_history = if merge_history {
-                self.merge_history
-                    .iter()
-                    .chain(other.merge_history.iter())
-                    .cloned()
-                    .collect::<Vec<_>>()
-            } else {
-                take(&mut self.merge_history)
-            };
-
             if let Some(prev_length) = prev_length {
                 let res = self.metric.optimize(
                     *cls,
@@ -579,8 +582,12 @@ where
                     res?;
                     unreachable!();
                 }
-                self.merge_history = merge_history;
+                merged = true;
             }
+        }
+
+        if merged {
+            self.merge_history = merge_history;
         }
 
         self.notifier.send(self.track_id);
